@@ -876,6 +876,11 @@ pub fn main(opts: &Opts) {
         let x = TargetArchetype::generate(&mut r, 2);
         case(&mut ctx, "TargetArchetype", &["amqp:target:list", "amqp:coordinator:list"], &x);
     }
+    for _ in 0..(6 * n) {
+        let mut r = ctx.rng.fork();
+        let m = gen_message(&mut r);
+        message_case(&mut ctx, &m);
+    }
     std::panic::set_hook(prev_hook);
     let Ctx { lines, expect, .. } = ctx;
     if let Ok(path) = std::env::var("VERIF_DUMP_LINES") {
@@ -904,8 +909,20 @@ pub fn main(opts: &Opts) {
                     if let Some(w) = want.strip_prefix('?') {
                         // corrupted input: compared only where both sides accept
                         if w != "ERR" && got.starts_with("OK ") {
-                            let g = got.rsplitn(2, ' ').nth(1).unwrap_or(got);
-                            if g != w {
+                            let g = if what.starts_with("decodeMsg") { got.as_str() } else { got.rsplitn(2, ' ').nth(1).unwrap_or(got) };
+                            // nested typed values (the delivery states of an unsettled map) come back without their
+                            // trailing nulls; the model keeps the leaf as it was written
+                            fn strip(s: &str) -> String {
+                                let mut t = s.to_string();
+                                loop {
+                                    let u = t.replace(",n)", ")").replace("l(n)", "l()");
+                                    if u == t {
+                                        return t;
+                                    }
+                                    t = u;
+                                }
+                            }
+                            if strip(g) != strip(w) {
                                 report.finding(Finding { kind: "disagreement", key: format!("typed-model:{}", what), description: format!("{}: the model reads {} and the implementation {}", line, g, w), replay: json!({"line": line, "model": got, "implementation": w, "case": replay}) });
                             }
                             report.count("corruption:both-accept");
@@ -1014,4 +1031,322 @@ fn children(v: &Value) -> Vec<Value> {
         Value::Described(d) => vec![d.value.clone()],
         _ => vec![],
     }
+}
+
+// ------------------------------------------------------------------------------- messages
+
+use fe2o3_amqp_types::messaging::message::__private::{Deserializable, Serializable};
+use fe2o3_amqp_types::messaging::{AmqpSequence, AmqpValue, ApplicationProperties, Batch, Body, Data, DeliveryAnnotations, Footer, Message, MessageAnnotations};
+use fe2o3_amqp_types::primitives::SimpleValue;
+
+fn basic_section(code: u64, inner: Value) -> Value {
+    Value::Described(Box::new(Described { descriptor: Descriptor::Code(code), value: inner }))
+}
+
+fn leaf_of(t: TV) -> Value {
+    match t {
+        TV::Leaf(v) => v,
+        _ => Value::Null,
+    }
+}
+
+fn gen_simple_value(rng: &mut Rng) -> SimpleValue {
+    match rng.below(8) {
+        0 => SimpleValue::Null,
+        1 => SimpleValue::Bool(rng.chance(1, 2)),
+        2 => SimpleValue::Uint(edge_u64(rng, 32) as u32),
+        3 => SimpleValue::Long(rng.next() as i64),
+        4 => SimpleValue::String(gen_text(rng)),
+        5 => SimpleValue::Symbol(Symbol::from(gen_ascii(rng))),
+        6 => SimpleValue::Binary(ByteBuf::generate(rng, 0)),
+        _ => SimpleValue::Ulong(edge_u64(rng, 64)),
+    }
+}
+
+pub fn gen_message(rng: &mut Rng) -> Message<Body<Value>> {
+    let body = match rng.below(6) {
+        0 => Body::Empty,
+        1 | 2 => Body::Value(AmqpValue(gen_leaf_value(rng))),
+        3 => Body::Data(Batch::new((0..1 + rng.below(3)).map(|_| Data(ByteBuf::generate(rng, 0))).collect::<Vec<_>>())),
+        4 => Body::Sequence(Batch::new((0..1 + rng.below(3)).map(|_| AmqpSequence((0..rng.below(4)).map(|_| gen_leaf_value(rng)).collect())).collect::<Vec<_>>())),
+        _ => Body::Value(AmqpValue(Value::String(gen_text(rng)))),
+    };
+    Message {
+        header: Gen::generate(rng, 1),
+        delivery_annotations: if rng.chance(1, 2) { Some(DeliveryAnnotations(Gen::generate(rng, 1))) } else { None },
+        message_annotations: if rng.chance(1, 2) { Some(MessageAnnotations(Gen::generate(rng, 1))) } else { None },
+        properties: Gen::generate(rng, 1),
+        application_properties: if rng.chance(1, 2) {
+            let mut m = OrderedMap::new();
+            for i in 0..rng.below(4) {
+                m.insert(format!("p{}{}", i, gen_ascii(rng)), gen_simple_value(rng));
+            }
+            Some(ApplicationProperties(m))
+        } else {
+            None
+        },
+        body,
+        footer: if rng.chance(1, 3) { Some(Footer(Gen::generate(rng, 1))) } else { None },
+    }
+}
+
+/// the sections of a message as the specification orders them (part 3 §3.2), each as a typed tree
+pub fn message_sections(m: &Message<Body<Value>>) -> Vec<TV> {
+    let mut v = vec![];
+    if let Some(h) = &m.header {
+        v.push(h.tv());
+    }
+    if let Some(a) = &m.delivery_annotations {
+        v.push(TV::Leaf(basic_section(0x71, leaf_of(a.0.tv()))));
+    }
+    if let Some(a) = &m.message_annotations {
+        v.push(TV::Leaf(basic_section(0x72, leaf_of(a.0.tv()))));
+    }
+    if let Some(p) = &m.properties {
+        v.push(p.tv());
+    }
+    if let Some(a) = &m.application_properties {
+        let mut map = OrderedMap::new();
+        for (k, x) in a.0.iter() {
+            map.insert(Value::String(k.clone()), Value::from(x.clone()));
+        }
+        v.push(TV::Leaf(basic_section(0x74, Value::Map(map))));
+    }
+    match &m.body {
+        Body::Value(AmqpValue(x)) => v.push(TV::Leaf(basic_section(0x77, x.clone()))),
+        Body::Data(batch) => {
+            for d in batch.iter() {
+                v.push(TV::Leaf(basic_section(0x75, Value::Binary(d.0.clone()))));
+            }
+        }
+        Body::Sequence(batch) => {
+            for s in batch.iter() {
+                v.push(TV::Leaf(basic_section(0x76, Value::List(s.0.clone()))));
+            }
+        }
+        Body::Empty => v.push(TV::Leaf(basic_section(0x77, Value::Null))),
+    }
+    if let Some(a) = &m.footer {
+        v.push(TV::Leaf(basic_section(0x78, leaf_of(a.0.tv()))));
+    }
+    v
+}
+
+
+fn show_opt_map(t: Option<TV>) -> String {
+    match t {
+        None => "-".into(),
+        Some(TV::Leaf(v)) => show(&v),
+        Some(other) => show_tv(&other),
+    }
+}
+
+/// the seven words of the model's line protocol; `Body::Empty` is what the model calls `e`
+pub fn show_msg(m: &Message<Body<Value>>, empty_as_null: bool) -> String {
+    let body = match &m.body {
+        Body::Value(AmqpValue(v)) => format!("v{}", show(v)),
+        Body::Data(b) => format!("d{}", b.iter().map(|d| if d.0.is_empty() { ".".to_string() } else { hex(&d.0) }).collect::<Vec<_>>().join(",")),
+        Body::Sequence(b) => format!("s{}", show(&Value::List(b.iter().map(|s| Value::List(s.0.clone())).collect()))),
+        Body::Empty => if empty_as_null { "vn".to_string() } else { "e".to_string() },
+    };
+    let ap = m.application_properties.as_ref().map(|a| {
+        let mut map = OrderedMap::new();
+        for (k, x) in a.0.iter() {
+            map.insert(Value::String(k.clone()), Value::from(x.clone()));
+        }
+        TV::Leaf(Value::Map(map))
+    });
+    [
+        m.header.as_ref().map(|h| show_tv(&h.tv())).unwrap_or_else(|| "-".into()),
+        show_opt_map(m.delivery_annotations.as_ref().map(|a| a.0.tv())),
+        show_opt_map(m.message_annotations.as_ref().map(|a| a.0.tv())),
+        m.properties.as_ref().map(|h| show_tv(&h.tv())).unwrap_or_else(|| "-".into()),
+        show_opt_map(ap),
+        body,
+        show_opt_map(m.footer.as_ref().map(|a| a.0.tv())),
+    ]
+    .join(" ")
+}
+
+fn message_case(ctx: &mut Ctx, m: &Message<Body<Value>>) {
+    type DM = Deserializable<Message<Body<Value>>>;
+    ctx.report.evaluations += 1;
+    ctx.report.count("type:Message");
+    ctx.report.count(match &m.body {
+        Body::Value(_) => "message_body:value",
+        Body::Data(_) => "message_body:data",
+        Body::Sequence(_) => "message_body:sequence",
+        Body::Empty => "message_body:empty(written as amqp-value null)",
+    });
+    let text = show_msg(m, false);
+    let expect_back = show_msg(m, true);
+    let replay = json!({"type": "Message", "message": text});
+    let bytes = match serde_amqp::to_vec(&Serializable(m.clone())) {
+        Ok(b) => b,
+        Err(e) => {
+            violation(ctx, "typed-encode-error:Message", format!("to_vec fails for the message {}: {}", text, e), replay);
+            return;
+        }
+    };
+    ctx.report.nontrivial_case(fnv(&hex(&bytes)));
+    // C03: what comes back (Body::Empty comes back as an amqp-value holding null: documented, counted above)
+    match serde_amqp::from_slice::<DM>(&bytes) {
+        Ok(d) if show_msg(&d.0, false) == expect_back && format!("{:?}", d.0.header) == format!("{:?}", m.header) && format!("{:?}", d.0.properties) == format!("{:?}", m.properties) => {}
+        Ok(d) => violation(ctx, "typed-roundtrip:Message", format!("the message {} comes back as {}", text, show_msg(&d.0, false)), replay.clone()),
+        Err(e) => violation(ctx, "typed-roundtrip:Message", format!("the message {} encoded as {} does not decode: {}", text, hex(&bytes), e), replay.clone()),
+    }
+    // C20: size and stream
+    match serde_amqp::serialized_size(&Serializable(m.clone())) {
+        Ok(n) if n == bytes.len() => {}
+        r => violation(ctx, "typed-size:Message", format!("serialized_size = {:?} but the encoding of the message {} has {} bytes", r, text, bytes.len()), replay.clone()),
+    }
+    for chunk in [1usize, 5, 4096] {
+        let rd = ChunkReader { data: &bytes, pos: 0, chunk, interrupt_at: None, calls: 0 };
+        match serde_amqp::from_reader::<DM>(rd) {
+            Ok(d) if show_msg(&d.0, false) == expect_back => {}
+            r => {
+                violation(ctx, "typed-io-vs-slice:Message", format!("from_reader (chunks of {}) gives {} for the message {}", chunk, match r { Ok(d) => show_msg(&d.0, false), Err(e) => format!("an error: {}", e) }, text), replay.clone());
+                break;
+            }
+        }
+    }
+    // C05: the bytes are the sections of the standard, one after the other, each judged by the reference decoder
+    let mut want: Vec<Value> = vec![];
+    for s in message_sections(m) {
+        want.push(spec_tree(&s, &ctx.regs, None, &mut vec![]));
+    }
+    let mut at = 0usize;
+    let mut parsed: Vec<Value> = vec![];
+    let mut bad: Option<String> = None;
+    while at < bytes.len() {
+        match crate::specenc::ref_value(&bytes[at..], 0) {
+            Ok((t, used)) if used > 0 => {
+                match crate::codec::parse(&t) {
+                    Some(v) => parsed.push(v),
+                    None => {
+                        bad = Some(format!("section at offset {} is read as {}", at, t));
+                        break;
+                    }
+                }
+                at += used;
+            }
+            Ok(_) => {
+                bad = Some(format!("nothing consumed at offset {}", at));
+                break;
+            }
+            Err(e) => {
+                bad = Some(format!("offset {}: {}", at, e));
+                break;
+            }
+        }
+    }
+    if bad.is_none() && parsed.iter().map(|p| normalise(p, &ctx.regs)).collect::<Vec<_>>() != want.iter().map(|p| normalise(p, &ctx.regs)).collect::<Vec<_>>() {
+        bad = Some(format!("the sections read are {:?}", parsed.iter().map(show).collect::<Vec<_>>()));
+    }
+    if let Some(b) = bad {
+        violation(ctx, "typed-encoding-not-the-value:Message", format!("the bytes {} of the message {} are not its sections in the order of the standard: {}", hex(&bytes), text, b), replay.clone());
+    }
+    // the model
+    model(ctx, format!("G msg {}", text), hex(&bytes), "encodeMsg", replay.clone());
+    model(ctx, format!("G mdec {}", hex(&bytes)), format!("OK {}", expect_back), "decodeMsg", replay.clone());
+    // variants of every section (composite level and widths)
+    for _ in 0..(if ctx.thorough { 4 } else { 1 }) {
+        let mut r = ctx.rng.fork();
+        let mut vb = vec![];
+        let mut note = vec![];
+        let mut modelled = true;
+        let mut choices = String::new();
+        for s in message_sections(m) {
+            let tree = spec_tree(&s, &ctx.regs, Some(&mut r), &mut note);
+            vb.extend(crate::specenc::ref_enc(&tree, &mut r, &mut choices, &mut modelled));
+        }
+        ctx.report.count("variants");
+        let vreplay = json!({"type": "Message", "message": text, "variant": hex(&vb), "choices": note});
+        match serde_amqp::from_slice::<DM>(&vb) {
+            Ok(d) if show_msg(&d.0, false) == expect_back => {}
+            Ok(d) => violation(ctx, "typed-variant-not-accepted:Message", format!("the valid encoding {} ({}) of the message {} decodes to {}", hex(&vb), note.join(","), text, show_msg(&d.0, false)), vreplay.clone()),
+            Err(e) => {
+                let zero_width = !modelled && ["!41", "!42", "!43", "!44"].iter().any(|x| choices.contains(x));
+                let key = if zero_width { "valid-variant-not-accepted:array-with-zero-width-element-constructor".to_string() } else { "typed-variant-not-accepted:Message".to_string() };
+                violation(ctx, &key, format!("the valid encoding ({}) of the message {} is refused: {}", note.join(","), text, e), vreplay.clone())
+            }
+        }
+        if modelled {
+            model(ctx, format!("G mdec {}", hex(&vb)), format!("OK {}", expect_back), "decodeMsg(variant)", vreplay);
+        }
+    }
+    // corruptions: totality, and agreement where both accept
+    for _ in 0..(if ctx.thorough { 8 } else { 2 }) {
+        let mut mm = bytes.clone();
+        match ctx.rng.below(3) {
+            0 => {
+                let cut = ctx.rng.below(mm.len() as u64) as usize;
+                mm.truncate(cut);
+            }
+            1 => {
+                let i = ctx.rng.below(mm.len() as u64) as usize;
+                mm[i] = ctx.rng.next() as u8;
+            }
+            _ => {
+                let i = ctx.rng.below(mm.len() as u64) as usize;
+                mm[i] = *ctx.rng.pick(&[0x40u8, 0x00, 0x45, 0xc0, 0x53, 0x70, 0x75, 0x77, 0x78]);
+            }
+        }
+        ctx.report.count("corruptions");
+        let m2 = mm.clone();
+        let (r, alloc, largest) = tracked(|| std::panic::catch_unwind(std::panic::AssertUnwindSafe(|| serde_amqp::from_slice::<DM>(&m2))));
+        let creplay = json!({"type": "Message", "bytes": hex(&mm)});
+        match r {
+            Err(p) => {
+                let msg = p.downcast_ref::<String>().cloned().or_else(|| p.downcast_ref::<&str>().map(|s| s.to_string())).unwrap_or_default();
+                violation(ctx, "decode-panic:Message", format!("decoding {} as a message panicked: {}", hex(&mm), msg), creplay);
+            }
+            Ok(res) => {
+                if largest > 64 * mm.len() as u64 + 6_000_000 || alloc > 4096 * (mm.len() as u64 + 16) + 12_000_000 {
+                    violation(ctx, "decode-allocation:Message", format!("decoding {} as a message allocated {} bytes ({} in one piece)", hex(&mm), alloc, largest), creplay.clone());
+                }
+                let got = match res {
+                    Ok(d) => format!("OK {}", show_msg(&d.0, false)),
+                    Err(_) => "ERR".to_string(),
+                };
+                ctx.report.count(if got == "ERR" { "corruption:refused" } else { "corruption:accepted" });
+                model(ctx, format!("G mdec {}", if mm.is_empty() { "-".to_string() } else { hex(&mm) }), format!("?{}", got), "decodeMsg(corrupted)", creplay);
+            }
+        }
+    }
+}
+
+pub fn probe_messages(opts: &Opts) {
+    let mut rng = Rng::new(opts.seed);
+    let regs = registry();
+    let mut bad = 0;
+    for k in 0..3000 {
+        let m = gen_message(&mut rng);
+        let bytes = match serde_amqp::to_vec(&Serializable(m.clone())) {
+            Ok(b) => b,
+            Err(e) => {
+                println!("encode error {:?}", e);
+                continue;
+            }
+        };
+        // specification view: the concatenation of the sections' encodings
+        let mut want = vec![];
+        for s in message_sections(&m) {
+            want.extend(serde_amqp::to_vec(&spec_tree(&s, &regs, None, &mut vec![])).unwrap());
+        }
+        let back = serde_amqp::from_slice::<Deserializable<Message<Body<Value>>>>(&bytes);
+        let same_bytes = want == bytes;
+        let rt = matches!(&back, Ok(d) if format!("{:?}", d.0) == format!("{:?}", m));
+        if (!same_bytes || !rt) && bad < 6 {
+            bad += 1;
+            let ms = format!("{:?}", m);
+            let gs = match &back { Ok(d) => format!("{:?}", d.0), Err(e) => format!("ERR {:?}", e) };
+            let a: Vec<char> = ms.chars().collect();
+            let b: Vec<char> = gs.chars().collect();
+            let i = a.iter().zip(b.iter()).position(|(x, y)| x != y).unwrap_or(a.len().min(b.len()));
+            let lo = i.saturating_sub(60);
+            println!("case {}: bytes as the sections {} / round trip {}\n   sent ..{}\n   got  ..{}", k, same_bytes, rt, a[lo..(i + 80).min(a.len())].iter().collect::<String>(), b[lo..(i + 80).min(b.len())].iter().collect::<String>());
+        }
+    }
+    println!("message probe done: {} shown", bad);
 }
